@@ -238,7 +238,7 @@ func run(cfg runConfig) (*runResult, error) {
 		if !hasProp(c, cfg.props) {
 			continue
 		}
-		if cfg.funcs != "" && !strings.Contains(k, cfg.funcs) {
+		if cfg.funcs != "" && !funcFilter(k, cfg.funcs) {
 			continue
 		}
 		fn, ok := fns[k]
@@ -638,4 +638,12 @@ func relevantHyps(hyps []*Term, goal *Term, depth int) []*Term {
 		}
 	}
 	return out
+}
+
+// funcFilter: substring match; a trailing "$" anchors the pattern at the end of the key.
+func funcFilter(key, pat string) bool {
+	if strings.HasSuffix(pat, "$") {
+		return strings.HasSuffix(key, strings.TrimSuffix(pat, "$"))
+	}
+	return strings.Contains(key, pat)
 }
